@@ -228,6 +228,64 @@ FILL_GUARANTEES_DATA = {   # reviewed by reading: Ok(()) from the fill step impl
 TERMINAL = ('Done',)
 
 
+def zero_result_of_empty_request(ctx, P):
+    """A reader that hands (part of) the caller's buffer to an inner reader and takes a 0 result as "this stage is finished" must not
+    do so for an EMPTY request: `read(&mut [])` yields 0 from any reader at any time.  In every `Read::read` that passes (a sub-slice of)
+    its buffer parameter to a count-returning call and changes its own state on the `== 0` side of a direct test of that count, the
+    state change is dominated by a test that involves the length of the caller's buffer (sibling of `Message::read`, F29)."""
+    from rules import panics
+    from rules.common import single_defs, direct_cmp_switches
+    n = 0
+    for p, r in sorted(ctx.f.bodies.items()):
+        if not p.endswith('as std::io::Read>::read') or '::tests::' in p or r['nargs'] < 2:
+            continue
+        if not r.get('reachable'):
+            continue        # readers of crate-private types are only driven by the crate's own (non-empty) buffers
+        b = ctx.wrap(r)
+        pulls = []
+        for i, t in b.calls():
+            rty = t.get('rty') or ''
+            if not re.search(r'Result<usize', rty):
+                continue
+            if any('l' in a and has_origin(b.operand_origins(a), r'^param:2$') and re.match(r"&(?:'\w+ )?mut \[u8\]", b.r['locals'][a['l']]['ty'] or '') for a in t['args'] if not a.get('pr')):
+                pulls.append((i, t))
+        if not pulls:
+            continue
+        dom = None
+        for i, t in pulls:
+            cp = panics.copies_of(b, t['d']['l'])
+            for g, op, side in direct_cmp_switches(b, lambda k, v: k == 'place' and 'l' in v and v['l'] in cp, lambda c: c == 0):
+                if g not in b.reach_from([i]):
+                    continue
+                succs = [j for j, _ in b.succ(g)]
+                if len(succs) != 2:
+                    continue
+                # which edge is the "count == 0" edge
+                tt = b.blocks[g]['t']
+                zero_edge = None
+                for j, lab in b.succ(g):
+                    truth = (lab[0] == 'v' and lab[1] == 1) or (lab[0] == 'else' and any(v == 0 for v, _ in tt['targets']))
+                    if (op == 'Eq' and truth) or (op == 'Ne' and not truth):
+                        zero_edge = j
+                if zero_edge is None:
+                    continue
+                other = [j for j in succs if j != zero_edge][0]
+                excl = b.reach_from([zero_edge], removed=frozenset([g])) - b.reach_from([other], removed=frozenset([g]))
+                changes = [x for x in sorted(excl) for st in b.blocks[x]['s'] if st['d']['l'] == 1 and st['d']['pr'] and st['d']['pr'][0] == '*']
+                if not changes:
+                    continue
+                n += 1
+                dom = dom or b.dominators()
+                lens = set(x for x, t2 in b.switches() if has_origin(b.switch_origins(x), r'^param:2$') and has_origin(b.switch_origins(x), r'^len$|call:.*(::len|::is_empty)$|op:PtrMetadata'))
+                lens &= b.reach_from([i])
+                bad = [x for x in changes if not (lens & set(dom.get(x, ())))]
+                ctx.check('%s:S09-8:zero-of-empty-request:%s' % (P, p), 'R-dom',
+                          '%s changes its stage on a 0 result of the inner read only behind a test of the length of the caller\'s buffer' % p[1:].split(' as ')[0].split('::')[-1].split('<')[0],
+                          not bad, function=p, site=site(b, bad[0]) if bad else site(b, g),
+                          missing=None if not bad else 'the state change at %s follows `count == 0` without looking at the request size: read(&mut []) in the middle of the stage ends it and drops what is left' % site(b, bad[0]))
+    ctx.floor(P + ':S09-8:floor', 'readers that end a stage on a zero result of an inner read into the caller\'s buffer', n, 1)
+
+
 def zero_means_end(ctx, P):
     """`read` returning Ok(0) for a non-empty buffer means end of stream to every consumer (io::copy, read_exact, read loops).  A reader
     built as a state enum that, in the arm of a NON-terminal state, hands out min(buf.len(), <stage buffer>.remaining()) right after one
